@@ -5,6 +5,7 @@ package main
 
 import (
 	"fmt"
+	"strconv"
 	"strings"
 	"unicode"
 )
@@ -127,7 +128,11 @@ func clex(src string) ([]ctok, error) {
 			if j >= len(src) {
 				return nil, fmt.Errorf("unterminated string in %q", src)
 			}
-			out = append(out, ctok{"str", src[i+1 : j]})
+			lit := src[i+1 : j]
+			if u, err := strconv.Unquote("\"" + lit + "\""); err == nil {
+				lit = u
+			}
+			out = append(out, ctok{"str", lit})
 			i = j + 1
 		default:
 			matched := false
